@@ -459,13 +459,29 @@ func (x *Exec) mapDelete(s *State, m *PtrVal, k Value) {
 
 func (x *Exec) mapLen(s *State, m *PtrVal) *Term {
 	tb := x.tb
-	mo, _ := x.mapObj(s, m)
-	r := tb.Int64(0)
-	if mo == nil {
+	count := func(mo *MapObj) *Term {
+		r := tb.Int64(0)
+		for _, e := range mo.Entries {
+			r = tb.Add(r, tb.Ite(e.Present, tb.Int64(1), tb.Int64(0)))
+		}
 		return r
 	}
-	for _, e := range mo.Entries {
-		r = tb.Add(r, tb.Ite(e.Present, tb.Int64(1), tb.Int64(0)))
+	al := x.mapAlts(s, m)
+	if len(al) == 0 {
+		return tb.Int64(0)
+	}
+	// per alternative (equal counts fold to a constant whatever the guards are)
+	var r *Term
+	for _, a := range al {
+		n := count(a.obj)
+		if r == nil {
+			r = n
+		} else {
+			r = tb.Ite(a.g, n, r)
+		}
+	}
+	if nl := x.ptrIsNil(m); !nl.IsFalse() {
+		r = tb.Ite(nl, tb.Int64(0), r)
 	}
 	return r
 }
